@@ -7,6 +7,7 @@ import (
 	authtypes "github.com/cosmos/cosmos-sdk/x/auth/types"
 	vestingtypes "github.com/cosmos/cosmos-sdk/x/auth/vesting/types"
 	banktypes "github.com/cosmos/cosmos-sdk/x/bank/types"
+	crisistypes "github.com/cosmos/cosmos-sdk/x/crisis/types"
 	distrtypes "github.com/cosmos/cosmos-sdk/x/distribution/types"
 	govtypes "github.com/cosmos/cosmos-sdk/x/gov/types"
 	govv1 "github.com/cosmos/cosmos-sdk/x/gov/types/v1"
@@ -156,4 +157,15 @@ func (g *G) genGovTx() *world.TxStep {
 	}
 	signers, how := g.signersFor([]sdk.Msg{msg}, 0, 97, false)
 	return &world.TxStep{Msgs: []world.MsgJSON{world.EncodeMsg(msg)}, Signers: signers, Fee: g.fee("fee"), Note: note + " signers=" + how}
+}
+
+// genCrisisTx asks the chain to verify one of its registered invariants (x/crisis): the
+// answer depends on wiring that exists in process memory only, not in the database.
+func (g *G) genCrisisTx() *world.TxStep {
+	routes := [][2]string{{"bank", "nonnegative-outstanding"}, {"bank", "total-supply"}, {"staking", "module-accounts"}, {"staking", "nonnegative-power"},
+		{"distribution", "nonnegative-outstanding"}, {"distribution", "module-account"}, {"gov", "module-account"}, {"bank", "no-such-route"}, {"aol", "anything"}}
+	r := pick(g, "route", routes)
+	msg := crisistypes.NewMsgVerifyInvariant(g.W.Accts[g.acct("sender")].Addr, r[0], r[1])
+	signers, how := g.signersFor([]sdk.Msg{msg}, 0, 97, false)
+	return &world.TxStep{Msgs: []world.MsgJSON{world.EncodeMsg(msg)}, Signers: signers, Fee: g.fee("fee"), Note: "verify-invariant " + r[0] + "/" + r[1] + " signers=" + how}
 }
